@@ -36,8 +36,22 @@ value reaches its own comparison (exactly the one matching row comes back),
 names are <= the limit, compiling a second time from fresh objects gives the
 same string.
 
-Mutations caught (each in a private copy, VF_REPO=/tmp/wt-strings/..):
-  filled in below after the runs.
+Finding on the unchanged tree (reported; two stable signatures ``ddl mysql:
+explicit-name-over-{index,constraint}-limit-not-rejected``): an explicit plain-str
+index / constraint name is validated against ``max_identifier_length`` only, so on
+a dialect whose ``max_index_name_length`` / ``max_constraint_name_length`` is smaller
+(MySQL: 64 vs 255) an over-long name is rendered unchanged instead of raising
+IdentifierError (proposed_fixes/c21_explicit_name_checked_against_kind_limit.diff).
+Counted, not a violation: an anonymous / truncated label that happens to be spelled
+like a column the user named (``lower(x) AS lowe_1`` next to a column ``lowe_1``):
+retrieval by element still works (counter generated-label-equals-user-name).
+
+Mutations caught (each in a private copy, VF_REPO=/tmp/wt-strings/<m>; all in sql/compiler.py):
+  * _truncate_and_render_maxlen_name: ``len(name) > max_`` -> ``>=`` -> ``short-name-altered``
+  * _truncate_and_render_maxlen_name: md5 suffix ``[-4:]`` -> ``[-8:]`` -> ``name-exceeds-limit``
+  * _truncated_identifier: counter increment dropped -> ``two-elements-share-a-generated-label`` / shared bind names
+  * _truncate_and_render_maxlen_name: md5 suffix replaced by ``hash(name)`` -> ``rendered names depend on PYTHONHASHSEED``
+Equivalent (still bounded, correctly silent): prefix ``max_ - 8`` -> ``max_ - 7``.
 """
 import hashlib
 import itertools
